@@ -109,6 +109,8 @@ FUNCS = {
     "getenv_s_nl":   ("shim_getenv_s_nl", "e", "pnpnp", 1),
     "strerror_s":    ("shim_strerror_s", "e", "pninpp", 1),
     "strerrorlen_s": ("shim_strerrorlen_s", "n", "ip", 1),
+    "asctime_s":     ("shim_asctime_s", "e", "pnpnpn", 1),
+    "ctime_s":       ("shim_ctime_s", "e", "pnpnpn", 1),
 }
 
 
